@@ -191,8 +191,8 @@ pub fn pcmp_nb_h() {
             u.kani_obls["pcmp_nb_h"] = ("%s/%s/PartialOrd::partial_cmp/neighbour-bytes" % (tagp, P.pid), "partial_cmp(&w1.e, &w2.e) == oracle::ord for all neighbour bytes")
         u.kani_obls["pcmp_h"] = ("%s/%s/PartialOrd::partial_cmp/contract" % (tagp, P.pid), "partial_cmp(a, b) == oracle::ord(a, b)")
         u.replay.append('let a = oracle::mk(s); let b = oracle::mk(s);\n'
-                        '    chk(out, "a.partial_cmp(&a)", a.partial_cmp(&a), oracle::ord(&a, &a));\n'
-                        '    chk(out, "a.partial_cmp(&b)", a.partial_cmp(&b), oracle::ord(&a, &b));\n'
+                        '    chk(out, "a.partial_cmp(&a)", PartialOrd::partial_cmp(&a, &a), oracle::ord(&a, &a));\n'
+                        '    chk(out, "a.partial_cmp(&b)", PartialOrd::partial_cmp(&a, &b), oracle::ord(&a, &b));\n'
                         '    chk(out, "a < b", a < b, oracle::ord(&a, &b) == Some(Ordering::Less));')
     else:
         u.kani_harness.append("""
@@ -225,6 +225,6 @@ pub fn cmp_nb_h() {
         if md != "ord_only":
             u.kani_obls["pcmp_h"] = ("%s/%s/PartialOrd::partial_cmp/contract" % (tagp, P.pid), "partial_cmp(a, b) == Some(oracle::ord(a, b))")
         u.replay.append('let a = oracle::mk(s); let b = oracle::mk(s);\n'
-                        '    chk(out, "a.cmp(&b)", a.cmp(&b), oracle::ord(&a, &b));\n'
-                        '    chk(out, "a.cmp(&a)", a.cmp(&a), oracle::ord(&a, &a));' + ('' if md == "ord_only" else
-                        '\n    chk(out, "a.partial_cmp(&b)", a.partial_cmp(&b), Some(oracle::ord(&a, &b)));'))
+                        '    chk(out, "a.cmp(&b)", Ord::cmp(&a, &b), oracle::ord(&a, &b));\n'
+                        '    chk(out, "a.cmp(&a)", Ord::cmp(&a, &a), oracle::ord(&a, &a));' + ('' if md == "ord_only" else
+                        '\n    chk(out, "a.partial_cmp(&b)", PartialOrd::partial_cmp(&a, &b), Some(oracle::ord(&a, &b)));'))
